@@ -151,51 +151,54 @@ def run(ses, rep):
         for p_ in parts:
             t = t + p_
         return t
-    inner1 = total([z3.If(z3.UGT(nf, K(i)), ell[i], K(0)) for i in range(F)] + [z3.If(z3.UGT(nf, K(i + 1)), K(1) + sep[i], K(0)) for i in range(F - 1)])
-    inner2 = total([z3.If(z3.UGT(nf, K(i)), ell[i], K(0)) for i in range(F)] + [z3.If(z3.UGT(nf, K(i + 1)), K(2), K(0)) for i in range(F - 1)])
-    base = [z3.UGE(nf, K(1)), z3.ULE(nf, K(F)), z3.ULT(a, K(2 ** 16)), z3.ULT(b, K(2 ** 16)), z3.ULT(pos0, K(2 ** 32))]
+    base = [z3.ULT(a, K(2 ** 16)), z3.ULT(b, K(2 ** 16)), z3.ULT(pos0, K(2 ** 32))]
     base += [z3.And(z3.UGE(l, K(1)), z3.ULT(l, K(2 ** 16))) for l in ell] + [z3.ULT(s_, K(2 ** 16)) for s_ in sep]
     for k_, v_ in sh.items():
         base.append(z3.ULT(v_, z3.BitVecVal(2 ** 16 if k_ != "column_width" else 2 ** 20, 64)))
-    bv = lambda t: t
     base += ex.all_discr_ranges()
 
     def subst_for(start, end, ws_open, ws_close, newline, any_other_ws):
-        s_ = [(sym[n], bv(start)) for n in start_names] + [(sym[n], bv(end)) for n in end_names]
+        s_ = [(sym[n], start) for n in start_names] + [(sym[n], end) for n in end_names]
         s_ += [(nl, newline), (ws0, ws_open), (ws1, ws_close), (has_fields, z3.BoolVal(True))]
         for n, v in sym.items():
             if n.startswith("trivia_is_whitespace#") and n not in ("trivia_is_whitespace#0", "trivia_is_whitespace#1"):
                 s_.append((v, any_other_ws))
         return s_
-    d1 = decision(subst_for(pos0, pos0 + a + inner1 + b, a != K(0), b != K(0), z3.BoolVal(False), b != K(0)))
-    d2 = decision(subst_for(pos0, pos0 + K(1) + inner2 + K(1), z3.BoolVal(True), z3.BoolVal(True), z3.BoolVal(False), z3.BoolVal(True)))
-    canon_sep = z3.And([z3.Implies(z3.UGT(nf, K(i + 1)), sep[i] == K(1)) for i in range(F - 1)])
     flagged = []
-    r, m = ses.obligation("table/decision-never-panics", base, z3.Or(d1 == 3, d2 == 3), "end >= start: the position subtraction cannot underflow")
-    if r == "sat":
-        rep.add("table/decision-never-panics", "inconclusive", "position subtraction can underflow under the stated layout model (no replay)")
-    r, m = ses.obligation("table/O1-canonical-separators-stable", base + [canon_sep, d1 == 0], d2 != 0,
-                          "single-line on `{a, b}`-style input (any brace padding) => single-line on the canonical output")
-    if r == "sat":
-        flagged.append(("table/O1-canonical-separators-stable", m, "canonical"))
-    r, m = ses.obligation("table/O2-any-separators-stable", base + [d1 == 0], d2 != 0, "single-line on any input spacing => single-line on the output")
-    if r == "sat":
-        flagged.append(("table/O2-any-separators-stable", m, "separators"))
-    # multi-line is a fixed point: the formatter puts a newline after `{`
-    d3 = decision(subst_for(pos0, pos0 + K(1) + inner2 + K(1), z3.BoolVal(True), z3.BoolVal(True), z3.BoolVal(True), z3.BoolVal(True)))
-    r, m = ses.obligation("table/multiline-is-a-fixed-point", base, d3 != 1, "newline after `{` => multi-line")
-    if r == "sat":
-        flagged.append(("table/multiline-is-a-fixed-point", m, "multiline"))
+    T_, F_ = z3.BoolVal(True), z3.BoolVal(False)
+    for k in range(1, F + 1):       # number of fields (one query family per count keeps the formulas small)
+        fields_w = total(ell[:k])
+        inner_in = fields_w + total([K(1) + sep[i] for i in range(k - 1)])
+        inner_canon = fields_w + K(2 * (k - 1))
+        fix = [nf == K(k)]
+        d_in = decision(subst_for(pos0, pos0 + a + inner_in + b, a != K(0), b != K(0), F_, b != K(0)))
+        d_in_c = decision(subst_for(pos0, pos0 + a + inner_canon + b, a != K(0), b != K(0), F_, b != K(0)))
+        d_out = decision(subst_for(pos0, pos0 + K(1) + inner_canon + K(1), T_, T_, F_, T_))
+        d_nl = decision(subst_for(pos0, pos0 + K(1) + inner_canon + K(1), T_, T_, T_, T_))
+        r, m = ses.obligation(f"table/fields={k}/decision-never-panics", base + fix, z3.Or(d_in == 3, d_out == 3), "end >= start: no underflow / overflow")
+        if r == "sat":
+            rep.add(f"table/fields={k}/decision-never-panics", "inconclusive", "arithmetic of the table decision can panic under the layout model (no replay)")
+        r, m = ses.obligation(f"table/fields={k}/O1-canonical-separators-stable", base + fix + [d_in_c == 0], d_out != 0,
+                              "single-line on `{a, b}`-style input (any brace padding) => single-line on the canonical output", timeout_s=20)
+        if r == "sat":
+            flagged.append((f"table/fields={k}/O1-canonical-separators-stable", m, "canonical", k))
+        r, m = ses.obligation(f"table/fields={k}/O2-any-separators-stable", base + fix + [d_in == 0], d_out != 0,
+                              "single-line on any input spacing => single-line on the output", timeout_s=60)
+        if r == "sat":
+            flagged.append((f"table/fields={k}/O2-any-separators-stable", m, "separators", k))
+        r, m = ses.obligation(f"table/fields={k}/multiline-is-a-fixed-point", base + fix, d_nl != 1, "newline after `{` => multi-line")
+        if r == "sat":
+            flagged.append((f"table/fields={k}/multiline-is-a-fixed-point", m, "multiline", k))
     rep.samples.append({"integer_slice_symbols": sorted(sym), "paths": len(paths)})
-    for oid, m, kind in flagged:
-        confirm(rep, oid, m, kind, dict(a=a, b=b, ell=ell, sep=sep, nf=nf, sh=sh))
+    for oid, m, kind, k in flagged:
+        confirm(rep, oid, m, kind, dict(a=a, b=b, ell=ell, sep=sep, nf=k, sh=sh))
 
 
 def confirm(rep, oid, m, kind, V):
     ev = lambda t: m.eval(t, model_completion=True).as_long()
-    nf = ev(V["nf"])
+    nf = V["nf"]
     ell = [max(1, min(ev(V["ell"][i]), 60)) for i in range(nf)]
-    sep = [min(ev(V["sep"][i]), 6) for i in range(nf - 1)]
+    sep = [1 if kind in ("canonical", "multiline") else min(ev(V["sep"][i]), 6) for i in range(nf - 1)]
     a, b = min(ev(V["a"]), 6), min(ev(V["b"]), 6)
     cw = ev(V["sh"]["column_width"])
     off = ev(V["sh"]["offset"]) + (ev(V["sh"]["indent_columns"]) if "indent_columns" in V["sh"] else 0)
@@ -204,7 +207,7 @@ def confirm(rep, oid, m, kind, V):
     if v is None:
         rep.add(oid, "inconclusive", f"solver model did not reproduce on the native build: {rec}")
         return
-    role = {"obligation": oid.split("/")[1].split("-")[0], "cause": kind}
+    role = {"obligation": oid.split("/")[2].split("-")[0], "cause": kind}
     status = rep.violation(role, {"observed": v, **rec})
     rep.add(oid, status, v)
 
